@@ -50,6 +50,7 @@ func RTTypes() []reflect.Type {
 		universe.TNumber, universe.TRaw, universe.TTime, universe.TEmpty,
 		reflect.TypeOf(universe.UJ{}), reflect.TypeOf(universe.UT{}), reflect.TypeOf(universe.Plain{}), reflect.TypeOf(universe.RecP{}),
 		reflect.TypeOf(universe.EmbPtr{}), reflect.TypeOf(universe.EmbCase{}), reflect.TypeOf(universe.EmbCaseV{}),
+		reflect.TypeOf(universe.ShBundle{}), reflect.TypeOf(universe.ShAmbUse{}),
 	}
 	seen := map[reflect.Type]bool{}
 	var out []reflect.Type
